@@ -147,7 +147,10 @@ class Ctx:
         data = "".join(json.dumps(r, ensure_ascii=True) + "\n" for r in reqs)
         p = subprocess.run([exe], input=data.encode(), stdout=subprocess.PIPE, stderr=subprocess.PIPE,
                            timeout=timeout or max(60, self.budget))
-        lines = p.stdout.decode("utf-8", "surrogateescape").splitlines()
+        # split at LF only: str.splitlines() would also break at U+0085, U+2028, 0x1c-0x1e inside JSON strings
+        lines = p.stdout.decode("utf-8", "surrogateescape").split("\n")
+        if lines and lines[-1] == "":
+            lines.pop()
         if p.returncode != 0 or len(lines) != len(reqs):
             raise RuntimeError("driver %s failed: rc=%s, %d replies for %d requests, stderr=%s" %
                                (driver, p.returncode, len(lines), len(reqs), p.stderr.decode()[-2000:]))
